@@ -3,7 +3,7 @@ import sys
 import vlib
 
 PID = "C05"
-REWRITES = [("pkg/station/lib/proxies.go", ["-swap", "time=vtime", "-swap", "sync=vsync", "-swap", "net=vnet", "-go"])]
+REWRITES = [("pkg/station/lib/proxies.go", ["-swap", "time=vtime", "-swap", "sync=vsync", "-swap", "net=vnet", "-go", "-chan"])]
 INJECTS = [("harness/libacc/lib_verif.go", "pkg/station/lib/zz_verif_acc.go"),
            ("harness/c05/main/main.go", "internal/zzverif_c05/main.go")]
 ASSUME = ["threads: the caller, both halfPipes and the asynchronous closers (go statements rewritten to controlled threads); scheduling points: every Read (blocking modelled), Write, modelled WaitGroup.Wait, thread spawn; I/O faults are environment deviations chosen per call (cost 1 each)",
